@@ -29,6 +29,14 @@ import logging
 
 logger = logging.getLogger(__name__)
 
+# verification hook: with YLDPROLOG_VERIF=1 every Variable is registered in a
+# weak set at construction, so that internally created variables can be inspected.
+import os
+_verif_variables = None
+if os.environ.get('YLDPROLOG_VERIF') == '1':
+    import weakref
+    _verif_variables = weakref.WeakSet()
+
 class YPException(Exception):
     '''Exception thrown by the engine.'''
     pass
@@ -83,6 +91,8 @@ class Variable(IUnifiable):
     a query."""
     def __init__(self):
         self._is_bound = False
+        if _verif_variables is not None:
+            _verif_variables.add(self)
     def get_value(self):
         """if the variable is bound, return the bound value, otherwise return the variable
         object itself. Will resolve the value recursively for variables that are bound to
